@@ -106,7 +106,7 @@ class Characteristics:
     def quantum_efficiency(self, value: float) -> None:
         """Set Quantum efficiency."""
         # TODO: Refactor this
-        if np.min(value) < 0.0 or np.max(value) > 1.0:
+        if not (np.min(value) >= 0.0 and np.max(value) <= 1.0):
             raise ValueError("'quantum_efficiency' values must be between 0.0 and 1.0.")
 
         self._quantum_efficiency = value
